@@ -169,6 +169,24 @@ def check(run, repo, world):
                 if isinstance(it, int) and itv is not None and it != itv:
                     problems.append("instance type %r differs from the "
                                     "map's answer %r" % (it, itv))
+            # what the map was asked: the frame's own short address and
+            # instance number (all six / five bits)
+            if sname == "device/instance" and mm in ("none", "type"):
+                keys = [n_ for n_ in st.notes if isinstance(n_, tuple)
+                        and n_ and n_[0] == "mapkey"]
+                if not keys:
+                    problems.append("the map was not asked for this "
+                                    "device/instance frame")
+                for (_k, ksa, kin) in keys:
+                    for (kv, fld, w_) in ((ksa, "short_address", 6),
+                                          (kin, "instance_number", 5)):
+                        hi, lo = fields[fld]
+                        gl = _val_lanes(st, kv, w_)
+                        if gl is None or lanes_match(
+                                st, gl, _field_lanes(hi, lo)):
+                            problems.append(
+                                "the map is asked with %s = %r, not frame "
+                                "bits %d:%d" % (fld, kv, hi, lo))
             # event data lanes
             data = _event_data_lanes(st, o)
             if data is None and o.cls.name in ("UnknownEvent",
